@@ -10,7 +10,8 @@
    them except where a theorem lists hypotheses. *)
 From Coq Require Import List ZArith Bool.
 From YV Require Import Common.Corr Model.Scalars Model.ScalarsB64 Gen.ScalarOps
-                       Lemmas.Scalars Lemmas.ScalarsTable Lemmas.ScalarsEval Lemmas.ScalarsB64 Lemmas.ScalarsSets.
+                       Lemmas.Scalars Lemmas.ScalarsTable Lemmas.ScalarsEval Lemmas.ScalarsB64 Lemmas.ScalarsSets
+                       Model.ScalarsFns Lemmas.ScalarsFns.
 Import ListNotations.
 
 (* ---- which overload runs: for every binary operator and every pair of kinds among
@@ -223,6 +224,28 @@ Theorem C15_set_dict_ops : forall cf F fo (a b : list Z) (d e : list (Z * Z)),
              forall k, dlookup k r = match dlookup k e with Some v => Some v | None => dlookup k d end) /\
   (forall z : Z, ev cf F fo OIn [VInt z; VSet a] = RVal (VBool true) <-> In z a).
 Proof. exact set_dict_ops. Qed.
+
+(* ---- the integer functions of math.py (abs, sign, min, max, pow, round, bitwise, shifts)
+   are exact at any magnitude: each meets its arithmetic specification over Z *)
+Theorem C15_int_functions_exact : forall a b c : Z,
+  (exists r, int_fn FAbs [a] = Some r /\ 0 <= r /\ (r = a \/ r = - a))%Z /\
+  (exists s, int_fn FSign [a] = Some s /\ a = s * Z.abs a /\ (s = 1 \/ s = 0 \/ s = -1))%Z /\
+  int_fn FMax [a; b] = Some (Z.max a b) /\ int_fn FMin [a; b] = Some (Z.min a b) /\
+  int_fn FPow [a; 0%Z] = Some 1%Z /\
+  ((0 <= b)%Z -> exists r, int_fn FPow [a; b] = Some r /\ int_fn FPow [a; (b + 1)%Z] = Some (a * r)%Z) /\
+  ((0 <= b)%Z -> c <> 0%Z -> exists r m, int_fn FPow [a; b] = Some r /\ int_fn FPowMod [a; b; c] = Some m /\
+                                   (c | r - m)%Z /\ (0 <= m < c \/ c < m <= 0)%Z) /\
+  int_fn FRound [a] = Some a /\ ((0 <= b)%Z -> int_fn FRoundN [a; b] = Some a) /\
+  ((b < 0)%Z -> exists r, int_fn FRoundN [a; b] = Some r /\ let p := (10 ^ (- b))%Z in
+             (p | r)%Z /\ (2 * Z.abs (r - a) <= p)%Z /\ ((2 * Z.abs (r - a))%Z = p -> Z.even (r / p) = true) /\
+             (forall m, (p | m)%Z -> (Z.abs (r - a) <= Z.abs (m - a))%Z)) /\
+  (exists x o e n, int_fn FAnd [a; b] = Some x /\ int_fn FOr [a; b] = Some o /\ int_fn FXor [a; b] = Some e /\
+     int_fn FNot [a] = Some n /\ n = (- a - 1)%Z /\
+     forall i, Z.testbit x i = Z.testbit a i && Z.testbit b i /\
+               Z.testbit o i = Z.testbit a i || Z.testbit b i /\
+               Z.testbit e i = xorb (Z.testbit a i) (Z.testbit b i)) /\
+  ((0 <= b)%Z -> int_fn FShl [a; b] = Some (a * 2 ^ b)%Z /\ int_fn FShr [a; b] = Some (a / 2 ^ b)%Z).
+Proof. exact int_functions_exact. Qed.
 
 (* ---- the regenerated file is well-formed: kinds in the model's order, every mapped
    overload has one row per argument and one column per kind *)
